@@ -230,12 +230,18 @@ func extras(has func(pkg, name string) bool) {
 	})
 	one(try, "Traverse_", "catalogue", func(c *ctx) {
 		traverseDecl(c)
-		c.impl = "try.Traverse_(IterOf(e, xs), fa)"
-		c.ref = `@acc := try.Pure(fp.Unit{})
-		for _, x := range xs {
-			x := x
-			acc = ` + c.fm("acc", "_", "fp.Unit", "fp.Unit", c.fm("fa(x)", "_", S, "fp.Unit", c.pure("fp.Unit{}"))) + `
+		c.d(`kind := e.X.Choose(SourceKinds, "source")`)
+		c.impl = "try.Traverse_(Source(e, kind, xs), fa)"
+		c.ref = `@src := Source(e, kind, xs)
+		var loop func() fp.Try[fp.Unit]
+		loop = func() fp.Try[fp.Unit] {
+			if !src.HasNext() {
+				return try.Pure(fp.Unit{})
+			}
+			x := src.Next()
+			return ` + c.fm("fa(x)", "_", S, "fp.Unit", "loop()") + `
 		}
+		acc := loop()
 		if acc.IsSuccess() {
 			return error(nil)
 		}
